@@ -306,8 +306,7 @@ class Frame(object):
 
 def _star(rng, cx, cy, rmin, rmax, n=None):
     n = n or rng.randint(5, 9)
-    angs = sorted(rng.uniform(0, 2 * math.pi) for _ in range(n))
-    # keep the polygon star shaped and not degenerate: spread the angles
+    # star shaped and not degenerate: one vertex per angular sector
     angs = [2 * math.pi * (i + rng.uniform(0.15, 0.85)) / n for i in range(n)]
     return [(cx + math.cos(a) * r, cy + math.sin(a) * r) for a, r in ((a, rng.uniform(rmin, rmax)) for a in angs)]
 
@@ -790,3 +789,604 @@ def tile_url(service, req, leaf):
                 '&TILEROW=%d&TILECOL=%d&FORMAT=image/%s&INFOFORMAT=text/plain&I=%d&J=%d' % (
                     name, gname, z, y, x, ext, req['pos'][0], req['pos'][1]))
     raise ValueError(service)
+
+
+# ---------------------------------------------------------------------------------------------------------------------
+# probes: execution and judgement
+# ---------------------------------------------------------------------------------------------------------------------
+FAM_CODE = [f[0] * 4 + f[1] * 2 + f[2] for f in FAMILIES]
+PNG_TOL = 2
+JPEG_TOL = 72          # restricted vs. reference, both jpeg encoded by the server: ringing of a clipped edge inside the MCU
+JPEG_BG_TOL = 56
+JPEG_EXTRA = 2         # extra don't-care pixels around a clip edge in jpeg output
+
+
+def classify(arr):
+    """arr RGBA uint8 -> codes: -2 fully transparent, -1 unknown, 0 / 7 background like, else colour family code"""
+    rgb = arr[..., :3]
+    hi = rgb >= HI_MIN
+    lo = rgb <= LO_MAX
+    known = (hi | lo).all(axis=2)
+    code = hi[..., 0].astype(np.int16) * 4 + hi[..., 1].astype(np.int16) * 2 + hi[..., 2].astype(np.int16)
+    code = np.where(known, code, -1)
+    return np.where(arr[..., 3] == 0, -2, code)
+
+
+def solid3(m):
+    p = np.pad(m, 1, constant_values=False)
+    out = np.ones_like(m)
+    for dy in (0, 1, 2):
+        for dx in (0, 1, 2):
+            out &= p[dy:dy + m.shape[0], dx:dx + m.shape[1]]
+    return out
+
+
+def rgba(resp):
+    return np.asarray(resp.image().convert('RGBA'))
+
+
+class Ctx(object):
+    pass
+
+
+def geom_class(gs, frame):
+    return (gs['cls'], gs['form'], 'same_srs' if gs['srs'] == frame.srs else '%s_in_%s' % (gs['srs'][5:], frame.srs[5:]))
+
+
+def cb_class(auth, leaves, feature):
+    m = auth.spec['mode']
+    if m != 'partial':
+        return m
+    den = any(not auth.permitted(lf, feature) for lf in leaves)
+    lim = any(auth.layer_limit(lf) for lf in leaves if auth.permitted(lf, feature))
+    return 'partial:%s%s%s' % ('denied' if den else 'allowed', '+layer_limit' if lim else '', '+global_limit' if auth.global_limit() else '')
+
+
+def first_bad(mask):
+    idx = np.argwhere(mask)
+    return (int(idx[0][1]), int(idx[0][0])) if len(idx) else None
+
+
+def exec_probe(ctx, probe):
+    run = ctx.run
+    svc = probe['service']
+    req = probe['req']
+    auth = Auth(probe['auth'])
+    if svc in ('wms_map', 'wms_fi'):
+        url = wms_url(req, fi=(svc == 'wms_fi'))
+    else:
+        url = tile_url(svc, req, ctx.spec['leaves'][req['layer']])
+    ctx.url = url
+
+    def do(cb):
+        ctx.up.reset_log()
+        r = wsgi_call(ctx.sc.app, url, cb)
+        return r, list(ctx.up.log)
+    if probe.get('order') == 'ref_first':
+        ref, refcalls = do(full_auth)
+        r, calls = do(auth)
+    else:
+        r, calls = do(auth)
+        ref, refcalls = do(full_auth)
+    run.hit('requests')
+    run.hit('svc_' + svc)
+    if not auth.calls:
+        viol(ctx, probe, {'service': svc, 'clause': 'callback_not_called'}, 'the authorization callback was never called')
+        return
+    if svc == 'wms_map':
+        judge_wms_map(ctx, probe, auth, r, ref, calls)
+    elif svc == 'wms_fi':
+        judge_wms_fi(ctx, probe, auth, r, ref, calls)
+    elif svc in ('wmts_fi_kvp', 'wmts_fi_rest'):
+        judge_wmts_fi(ctx, probe, auth, r, ref, calls)
+    else:
+        judge_tile(ctx, probe, auth, r, ref, calls)
+
+
+def viol(ctx, probe, mech, detail):
+    import json
+    case = {'i': ctx.case.get('i'), 'scen': ctx.spec, 'probes': [probe]}
+    a = json.dumps(probe['auth'], default=str)
+    ctx.run.violation(mech, case, '%s | request %s | callback result %s' % (detail, ctx.url, a if len(a) < 1800 else a[:1800] + '...'))
+
+
+def called_layers(calls, kind=None):
+    out = set()
+    for c in calls:
+        if kind and c.kind != kind:
+            continue
+        out.update(c.extra.get('layers') or [n for n in c.params.get('layers', '').split(',') if n])
+    return out
+
+
+def check_status(ctx, probe, svc, r, exp, denied):
+    """returns True if the response is the expected kind; violations for leaks / wrong rejections, don't-care for 5xx"""
+    run = ctx.run
+    if r.code in exp:
+        return True
+    if r.code >= 500 or r.code == 400:
+        run.dc('error_response_%d' % r.code)
+        run.count('error_response:%s:%d' % (svc, r.code))
+        if len(ctx.errors) < 3:
+            ctx.errors.append((r.code, ctx.url, r.body[:200]))
+        return False
+    if r.code == 200:
+        viol(ctx, probe, {'service': svc, 'clause': 'denied_request_answered', 'expected': list(exp)},
+             'expected status %r because %s, got 200 %s (%d bytes)' % (exp, denied, r.content_type, len(r.body)))
+    else:
+        viol(ctx, probe, {'service': svc, 'clause': 'wrong_status', 'expected': list(exp), 'got': r.code},
+             'expected status %r (%s), got %d %r' % (exp, denied or 'everything requested is permitted', r.code, r.body[:120]))
+    return False
+
+
+def layer_meta(ctx, name):
+    leaf = ctx.spec['leaves'][name]
+    k = int(leaf['up'][1:])
+    return leaf, leaf['up'], FAM_CODE[k % len(FAM_CODE)]
+
+
+def judge_wms_map(ctx, probe, auth, r, ref, calls):
+    run = ctx.run
+    req = probe['req']
+    tree = SHAPES[ctx.spec['shape']]
+    frame = Frame(req['srs'], req['bbox'], req['size'])
+    resolved = resolve(tree, req['layers'])
+    explicit = set(req['layers'])
+    mode = auth.spec['mode']
+    denied = [lf for lf in resolved if not auth.permitted(lf, 'map')]
+    allowed = [lf for lf in resolved if lf not in denied]
+    if mode == 'unauthenticated':
+        exp = (401,)
+    elif any(lf in explicit for lf in denied):
+        exp = (403,)
+    elif mode == 'none':
+        exp = (403, 200)
+    else:
+        exp = (200,)
+    out_jpeg = req['format'] == 'image/jpeg'
+    fmt = 'jpeg' if out_jpeg else ('png_transparent' if req['transparent'] else 'png_bgcolor')
+    limits = [(lf, auth.layer_limit(lf)) for lf in allowed if auth.layer_limit(lf)]
+    glimit = auth.global_limit()
+    gcls = sorted(set([geom_class(g, frame) for _, g in limits] + ([('global',) + geom_class(glimit, frame)] if glimit else [])))
+    cls = ('wms_map', cb_class(auth, resolved, 'map'), tuple(gcls[:2]), fmt, ctx.spec['shape'], len(req['layers']))
+    run.judge(cls, nontrivial=(mode == 'partial'))
+    # --- upstream attribution ---------------------------------------------------------------------------------------
+    called = called_layers(calls)
+    allowed_up = set(layer_meta(ctx, lf)[1] for lf in allowed)
+    for lf in denied:
+        run.hit('denied_checks')
+        run.hit('no_upstream_for_denied_checks')
+        if layer_meta(ctx, lf)[1] in called:
+            viol(ctx, probe, {'service': 'wms_map', 'clause': 'upstream_call_for_denied_layer', 'explicit': lf in explicit},
+                 'layer %s (upstream %s) is denied (map) but upstream calls name it: %r' % (
+                     lf, layer_meta(ctx, lf)[1], [c.url[:200] for c in calls][:3]))
+    extra = called - allowed_up - set(layer_meta(ctx, lf)[1] for lf in denied)
+    if extra:
+        viol(ctx, probe, {'service': 'wms_map', 'clause': 'upstream_call_for_unrequested_layer'},
+             'upstream layers %r were requested although LAYERS=%r resolves to %r' % (sorted(extra), req['layers'], resolved))
+    why = 'callback said %s' % mode if mode != 'partial' else 'layers %r are denied (map), explicitly requested: %r' % (
+        denied, [lf for lf in denied if lf in explicit])
+    if not check_status(ctx, probe, 'wms_map', r, exp, why if (denied or mode != 'partial') else ''):
+        return
+    if r.code != 200:
+        run.hit('rejected_as_expected')
+        if called:
+            viol(ctx, probe, {'service': 'wms_map', 'clause': 'upstream_call_for_rejected_request'},
+                 'request was rejected with %d but upstream was called for %r' % (r.code, sorted(called)))
+        return
+    try:
+        arr = rgba(r)
+    except Exception as ex:
+        run.dc('undecodable_response')
+        return
+    w, h = frame.size
+    if arr.shape[:2] != (h, w):
+        run.dc('wrong_size_response')
+        return
+    lossy = out_jpeg or ctx.spec['resampling'] != 'nearest' or any(ctx.spec['leaves'][lf]['kind'] == 'cache_jpeg' for lf in resolved)
+    has_alpha = (not out_jpeg) and req['transparent']
+    codes = classify(arr)
+    visible = arr[..., 3] > 0
+    bg = np.array(_bgcolor(req['bgcolor']), dtype=np.int16)
+    mech0 = {'service': 'wms_map', 'out': fmt, 'lossy_path': bool(lossy)}
+
+    def is_code(c):
+        m = (codes == c) & visible
+        return solid3(m) if lossy else m
+    thr = 4 if lossy else 0
+    # --- layers that must not show anywhere -------------------------------------------------------------------------
+    for name in ctx.spec['leaves']:
+        if name in allowed:
+            continue
+        leaf, upn, code = layer_meta(ctx, name)
+        m = is_code(code)
+        n = int(m.sum())
+        if name in denied:
+            run.hit('denied_layer_pixel_checks')
+        if n > thr:
+            viol(ctx, probe, dict(mech0, clause='denied_layer_pixels' if name in denied else 'unrequested_layer_pixels'),
+                 '%d pixels show the colours of layer %s (%s), first at %r = %r' % (
+                     n, name, 'denied' if name in denied else 'not requested', first_bad(m), arr[first_bad(m)[1], first_bad(m)[0]].tolist()))
+    # --- geometry obligations -----------------------------------------------------------------------------------------
+    d_clear = 1.0 + (JPEG_EXTRA if out_jpeg else 0.0)
+    d_keep = 2.0 + (JPEG_EXTRA if out_jpeg else 0.0)
+    oracles = {}
+    usable = True
+    for lf, g in limits:
+        oracles[lf] = GeomOracle(g, frame)
+        usable &= oracles[lf].ok
+    go_g = GeomOracle(glimit, frame) if glimit else None
+    if go_g is not None and not go_g.ok:
+        usable = False
+    if not usable:
+        run.dc('geometry_not_transformable')
+        return
+    nclear = 0
+    for lf, g in limits:
+        leaf, upn, code = layer_meta(ctx, lf)
+        clear = oracles[lf].outside(d_clear)
+        nclear += int(clear.sum())
+        m = is_code(code) & clear
+        n = int(m.sum())
+        if n > thr:
+            p = first_bad(m)
+            viol(ctx, probe, dict(mech0, clause='limited_layer_visible_outside', role='layer', form=g['form'],
+                                  srs_rel='same' if g['srs'] == frame.srs else 'other'),
+                 '%d pixels more than %.0f px outside the %s geometry (%s) of layer %s show its colours, first at %r = %r' % (
+                     n, d_clear, g['cls'], g['srs'], lf, p, arr[p[1], p[0]].tolist()))
+    # pixels where nothing may show: outside the global geometry, or outside the geometries of all permitted layers
+    must_bg = np.zeros((h, w), dtype=bool)
+    if go_g is not None:
+        must_bg |= go_g.outside(d_clear)
+    if allowed and all(lf in oracles for lf in allowed):
+        allout = np.ones((h, w), dtype=bool)
+        for lf in allowed:
+            allout &= oracles[lf].outside(d_clear)
+        must_bg |= allout
+    if not allowed:
+        must_bg[:] = True
+    nbg = int(must_bg.sum())
+    if nbg:
+        if has_alpha:
+            badm = must_bg & (arr[..., 3] != 0)
+        else:
+            tol = JPEG_BG_TOL if out_jpeg else 0
+            badm = must_bg & (np.abs(arr[..., :3].astype(np.int16) - bg).max(axis=2) > tol)
+        n = int(badm.sum())
+        if n > 0:
+            p = first_bad(badm)
+            role = 'global' if go_g is not None else ('all_layers_limited' if allowed else 'all_layers_denied')
+            g = glimit or (limits[0][1] if limits else {'form': None, 'srs': frame.srs, 'cls': None})
+            viol(ctx, probe, dict(mech0, clause='outside_not_background', role=role, form=g['form'],
+                                  srs_rel='same' if g['srs'] == frame.srs else 'other'),
+                 '%d of %d pixels that lie more than %.0f px outside the permitted area are not %s, first at %r = %r' % (
+                     n, nbg, d_clear, 'fully transparent' if has_alpha else 'the background colour %r' % (bg.tolist(),), p,
+                     arr[p[1], p[0]].tolist()))
+    run.hit('must_be_clear_pixels', nclear + nbg)
+    if limits or glimit:
+        run.hit('limited_map_checks')
+    # --- content that must be kept -------------------------------------------------------------------------------------
+    if ref.code != 200:
+        run.dc('reference_failed_%d' % ref.code)
+        return
+    try:
+        rarr = rgba(ref)
+    except Exception:
+        run.dc('reference_undecodable')
+        return
+    rcodes = classify(rarr)
+    rvis = rarr[..., 3] > 0
+    keep = np.zeros((h, w), dtype=bool)
+    for lf in allowed:
+        leaf, upn, code = layer_meta(ctx, lf)
+        m = (rcodes == code) & rvis
+        if lossy:
+            m = solid3(m)
+        if lf in oracles:
+            m = m & oracles[lf].inside(d_keep)
+        keep |= m
+    if go_g is not None:
+        keep &= go_g.inside(d_keep)
+    nkeep = int(keep.sum())
+    run.hit('must_keep_pixels', nkeep)
+    if nkeep:
+        diff = np.abs(arr.astype(np.int16) - rarr.astype(np.int16)).max(axis=2)
+        # a jpeg cache answers its first request from the not yet encoded upstream image, later ones from the stored jpeg
+        jpeg_src = any(ctx.spec['leaves'][lf]['kind'] == 'cache_jpeg' for lf in allowed)
+        tol = JPEG_TOL if (out_jpeg or jpeg_src) else PNG_TOL
+        badm = keep & (diff > tol)
+        n = int(badm.sum())
+        ctx.maxdiff = max(ctx.maxdiff, int(diff[keep].max())) if out_jpeg else ctx.maxdiff
+        if n > 0:
+            p = first_bad(badm)
+            g = glimit or (limits[0][1] if limits else {'form': None, 'srs': frame.srs, 'cls': None})
+            viol(ctx, probe, dict(mech0, clause='inside_content_lost', role='global' if glimit else ('layer' if limits else 'none'),
+                                  form=g['form'], srs_rel='same' if g['srs'] == frame.srs else 'other', gcls=g['cls']),
+                 '%d of %d pixels that lie more than %.0f px inside the permitted area differ from the unrestricted response '
+                 'by more than %d, first at %r: restricted %r unrestricted %r' % (
+                     n, nkeep, d_keep, tol, p, arr[p[1], p[0]].tolist(), rarr[p[1], p[0]].tolist()))
+    if len(run.samples) < 2 and (limits or glimit) and nkeep and (nclear + nbg):
+        run.sample({'service': 'wms_map', 'url': ctx.url, 'callback_result': probe['auth'], 'status': r.code,
+                    'must_be_clear_pixels': nclear + nbg, 'must_keep_pixels': nkeep, 'upstream_layers_called': sorted(called)})
+
+
+def fi_present(body, upn):
+    return ('layer=%s ' % upn).encode() in body
+
+
+def judge_fi_layers(ctx, probe, svc, auth, r, calls, frame, leaves, feature, extra_mech):
+    """shared part of WMS / WMTS feature info: which layers' info must / must not be in a 200 response"""
+    run = ctx.run
+    req = probe['req']
+    px, py = req['pos'][0] + 0.5, req['pos'][1] + 0.5
+    fi_called = called_layers(calls, 'featureinfo')
+    any_called = called_layers(calls)
+    for lf in leaves:
+        leaf, upn, code = layer_meta(ctx, lf)
+        present = r.code == 200 and fi_present(r.body, upn)
+        if not auth.permitted(lf, feature):
+            run.hit('denied_checks')
+            run.hit('no_upstream_for_denied_checks')
+            run.hit('featureinfo_denied')
+            if present or upn in any_called:
+                viol(ctx, probe, dict(extra_mech, service=svc, clause='featureinfo_for_denied_layer', in_response=bool(present)),
+                     'layer %s is denied (%s) but %s' % (lf, feature, 'its info text is in the response %r' % r.body[:200]
+                                                         if present else 'upstream was asked: %r' % [c.url[:160] for c in calls][:2]))
+            continue
+        gates = []
+        if svc == 'wms_fi':
+            gates = [g for g in (auth.layer_limit(lf), auth.global_limit()) if g]
+            roles = (['layer'] if auth.layer_limit(lf) else []) + (['global'] if auth.global_limit() else [])
+        else:
+            # tile services: the layer's geometry and the request-wide geometry both bind (property text)
+            gates = [g for g in (auth.layer_limit(lf), auth.global_limit()) if g]
+            roles = (['layer'] if auth.layer_limit(lf) else []) + (
+                ['global_with_layer_limit' if auth.layer_limit(lf) else 'global'] if auth.global_limit() else [])
+        if r.code != 200:
+            continue
+        if not gates:
+            run.hit('featureinfo_unlimited')
+            if not present:
+                viol(ctx, probe, dict(extra_mech, service=svc, clause='featureinfo_missing_for_permitted_layer'),
+                     'layer %s is permitted without limit, but its info is not in the response %r' % (lf, r.body[:200]))
+            continue
+        pcs = []
+        for g in gates:
+            go = GeomOracle(g, frame)
+            pcs.append(go.point_class(px, py, 1.0) if go.ok else 'band')
+        cls = (svc, 'gate', tuple(geom_class(g, frame) for g in gates), tuple(pcs), ctx.spec['shape'])
+        if 'outside' in pcs:
+            run.judge(cls)
+            run.hit('featureinfo_outside')
+            if present:
+                k = pcs.index('outside')
+                g = gates[k]
+                viol(ctx, probe, dict(extra_mech, service=svc, clause='featureinfo_outside_returned', role=roles[k], form=g['form'],
+                                      srs_rel='same' if g['srs'] == frame.srs else 'other'),
+                     'click pixel %r lies more than 1 px outside the %s geometry (%s, %s) of %s, but the response carries '
+                     'the info of layer %s: %r' % (req['pos'], g['cls'], g['form'], g['srs'], roles[k], lf, r.body[:200]))
+        elif all(p == 'inside' for p in pcs):
+            run.judge(cls)
+            run.hit('featureinfo_inside')
+            if not present:
+                g = gates[0]
+                viol(ctx, probe, dict(extra_mech, service=svc, clause='featureinfo_inside_not_returned', role=roles[0], form=g['form'],
+                                      srs_rel='same' if g['srs'] == frame.srs else 'other'),
+                     'click pixel %r lies more than 1 px inside every geometry (%r) that limits layer %s, but its info is '
+                     'missing: %r (upstream feature info calls: %r)' % (
+                         req['pos'], [(gg['cls'], gg['form'], gg['srs']) for gg in gates], lf, r.body[:200], sorted(fi_called)))
+        else:
+            run.dc('featureinfo_click_in_band')
+
+
+def judge_wms_fi(ctx, probe, auth, r, ref, calls):
+    run = ctx.run
+    req = probe['req']
+    tree = SHAPES[ctx.spec['shape']]
+    frame = Frame(req['srs'], req['bbox'], req['size'])
+    leaves = resolve(tree, req['query_layers'])
+    mode = auth.spec['mode']
+    denied = [lf for lf in leaves if not auth.permitted(lf, 'featureinfo')]
+    same = sorted(req['query_layers']) == sorted(req['layers'])
+    explicit = set(req['layers']) if same else set()
+    if mode == 'unauthenticated':
+        exp = (401,)
+    elif any(lf in explicit for lf in denied):
+        exp = (403,)
+    elif denied:
+        exp = (403, 200)           # implicit (or LAYERS != QUERY_LAYERS): rejected or silently dropped
+    else:
+        exp = (200,)
+    run.judge(('wms_fi', cb_class(auth, leaves, 'featureinfo'), ctx.spec['shape'], same), nontrivial=(mode == 'partial'))
+    judge_fi_layers(ctx, probe, 'wms_fi', auth, r if r.code in exp else scenario.Response('0 x', [], b''), calls, frame,
+                    leaves, 'featureinfo', {})
+    why = 'callback said %s' % mode if mode != 'partial' else 'layers %r are denied (featureinfo)' % (denied,)
+    if not check_status(ctx, probe, 'wms_fi', r, exp, why if (denied or mode != 'partial') else ''):
+        return
+    if r.code != 200:
+        run.hit('rejected_as_expected')
+
+
+def judge_wmts_fi(ctx, probe, auth, r, ref, calls):
+    run = ctx.run
+    req = probe['req']
+    name = req['layer']
+    leaf = ctx.spec['leaves'][name]
+    frame = tile_frame(leaf, req['z'], req['x'], req['y'], True)
+    mode = auth.spec['mode']
+    ok = auth.permitted(name, 'featureinfo')
+    exp = (401,) if mode == 'unauthenticated' else ((200,) if ok else (403,))
+    run.judge((probe['service'], cb_class(auth, [name], 'featureinfo'), leaf['grid'], leaf['origin']), nontrivial=(mode == 'partial'))
+    extra = {'grid_origin': leaf['origin']}
+    judge_fi_layers(ctx, probe, 'wmts_fi', auth, r if r.code in exp else scenario.Response('0 x', [], b''), calls, frame,
+                    [name], 'featureinfo', extra)
+    if not check_status(ctx, probe, 'wmts_fi', r, exp, '' if ok else 'layer %s is denied (featureinfo), callback said %s' % (name, mode)):
+        return
+    if r.code != 200:
+        run.hit('rejected_as_expected')
+
+
+def judge_tile(ctx, probe, auth, r, ref, calls):
+    run = ctx.run
+    svc = probe['service']
+    req = probe['req']
+    name = req['layer']
+    leaf, upn, code = layer_meta(ctx, name)
+    nw = svc.startswith('wmts') or svc == 'tiles_nw'
+    frame = tile_frame(leaf, req['z'], req['x'], req['y'], nw)
+    mode = auth.spec['mode']
+    ok = auth.permitted(name, 'tile')
+    exp = (401,) if mode == 'unauthenticated' else ((200,) if ok else (403,))
+    family = {'tms': 'tms', 'tiles': 'tms', 'tiles_nw': 'tms', 'wmts_kvp': 'wmts', 'wmts_rest': 'wmts', 'kml': 'kml', 'kml_doc': 'kml'}[svc]
+    run.hit('family_' + family)
+    limits = []
+    if ok and mode == 'partial':
+        if auth.layer_limit(name):
+            limits.append(('layer', auth.layer_limit(name)))
+        if auth.global_limit():
+            limits.append(('global_with_layer_limit' if auth.layer_limit(name) else 'global', auth.global_limit()))
+    cls = (svc, cb_class(auth, [name], 'tile'), tuple(geom_class(g, frame) for _, g in limits), leaf['kind'], leaf['grid'],
+           leaf['origin'])
+    run.judge(cls, nontrivial=(mode == 'partial'))
+    mech0 = {'service': family, 'cache': leaf['kind'], 'grid_origin': leaf['origin']}
+    if svc == 'kml_doc':
+        mech0['document'] = True
+    called = called_layers(calls)
+    if not ok:
+        run.hit('denied_checks')
+        run.hit('no_upstream_for_denied_checks')
+        if called:
+            viol(ctx, probe, dict(mech0, clause='upstream_call_for_denied_layer'),
+                 'tile layer %s is denied (callback %s) but upstream was called: %r' % (name, mode, [c.url[:160] for c in calls][:2]))
+    if not check_status(ctx, probe, family, r, exp, '' if ok else 'layer %s is denied (tile), callback said %s' % (name, mode)):
+        return
+    if r.code != 200:
+        run.hit('rejected_as_expected')
+        return
+    if svc == 'kml_doc':
+        run.hit('kml_documents_allowed')
+        return
+    try:
+        arr = rgba(r)
+    except Exception:
+        run.dc('undecodable_response')
+        return
+    if arr.shape[:2] != (TILE, TILE):
+        run.dc('wrong_size_response')
+        return
+    img_mode = r.image().mode
+    has_alpha = img_mode in ('RGBA', 'LA') or 'transparency' in r.image().info
+    out = (r.content_type.split('/')[-1] or '?') + ('_alpha' if has_alpha else '')
+    mech0['out'] = out
+    oracles = []
+    for role, g in limits:
+        go = GeomOracle(g, frame)
+        if not go.ok:
+            run.dc('geometry_not_transformable')
+            return
+        oracles.append((role, g, go))
+    lossy_out = 'jpeg' in r.content_type
+    d_clear = 1.0 + (JPEG_EXTRA if lossy_out else 0.0)
+    d_keep = 2.0 + (JPEG_EXTRA if lossy_out else 0.0)
+    nclear = 0
+    for role, g, go in oracles:
+        clear = go.outside(d_clear)
+        nc = int(clear.sum())
+        nclear += nc
+        if not nc:
+            continue
+        if has_alpha:
+            badm = clear & (arr[..., 3] != 0)
+        else:
+            tol = JPEG_BG_TOL if lossy_out else 0
+            badm = clear & (np.abs(arr[..., :3].astype(np.int16) - 255).max(axis=2) > tol)
+        n = int(badm.sum())
+        if n:
+            p = first_bad(badm)
+            viol(ctx, probe, dict(mech0, clause='outside_not_background', role=role, form=g['form'],
+                                  srs_rel='same' if g['srs'] == frame.srs else 'other'),
+                 '%d of %d tile pixels more than %.0f px outside the %s geometry (%s, %s, %s) are not %s, first at %r = %r; '
+                 'response is %s mode %s' % (n, nc, d_clear, role, g['cls'], g['form'], g['srs'],
+                                             'fully transparent' if has_alpha else 'white', p, arr[p[1], p[0]].tolist(),
+                                             r.content_type, img_mode))
+    run.hit('must_be_clear_pixels', nclear)
+    if limits:
+        run.hit('limited_tile_checks')
+    if ref.code != 200:
+        run.dc('reference_failed_%d' % ref.code)
+        return
+    try:
+        rarr = rgba(ref)
+    except Exception:
+        run.dc('reference_undecodable')
+        return
+    rcodes = classify(rarr)
+    keep = (rcodes == code)
+    if leaf['kind'] == 'cache_jpeg':
+        keep = solid3(keep)
+    for role, g, go in oracles:
+        keep &= go.inside(d_keep)
+    nkeep = int(keep.sum())
+    run.hit('must_keep_pixels', nkeep)
+    if nkeep:
+        diff = np.abs(arr.astype(np.int16) - rarr.astype(np.int16)).max(axis=2)
+        tol = JPEG_TOL if (lossy_out or leaf['kind'] == 'cache_jpeg') else PNG_TOL
+        badm = keep & (diff > tol)
+        n = int(badm.sum())
+        if n:
+            p = first_bad(badm)
+            g = limits[0][1] if limits else {'form': None, 'srs': frame.srs, 'cls': None}
+            viol(ctx, probe, dict(mech0, clause='inside_content_lost', role=limits[0][0] if limits else 'none', form=g['form'],
+                                  srs_rel='same' if g['srs'] == frame.srs else 'other', gcls=g['cls']),
+                 '%d of %d tile pixels more than %.0f px inside the permitted area differ from the unrestricted tile by more '
+                 'than %d, first at %r: restricted %r unrestricted %r' % (n, nkeep, d_keep, tol, p, arr[p[1], p[0]].tolist(),
+                                                                         rarr[p[1], p[0]].tolist()))
+    if len(run.samples) < 4 and limits and nkeep and nclear:
+        run.sample({'service': svc, 'url': ctx.url, 'callback_result': probe['auth'], 'status': r.code, 'content_type': r.content_type,
+                    'must_be_clear_pixels': nclear, 'must_keep_pixels': nkeep})
+
+
+# ---------------------------------------------------------------------------------------------------------------------
+# cases
+# ---------------------------------------------------------------------------------------------------------------------
+
+def gen_cases(run):
+    n = run.pick(1600, 40000)
+    for i in range(n):
+        yield {'i': i}
+
+
+def run_case(run, case):
+    rng = run.rng('case', case.get('i'))
+    spec = case.get('scen') or gen_scenario(rng)
+    d = run.subdir('c10')
+    try:
+        ctx = Ctx()
+        ctx.run, ctx.case, ctx.spec = run, case, spec
+        ctx.errors = []
+        ctx.maxdiff = 0
+        ctx.sc = build(spec, d)
+        ctx.up = upstream.install()
+        run.hit('scenarios')
+        run.count('shape:' + spec['shape'])
+        probes = case.get('probes')
+        if probes is None:
+            nprobe = run.pick(5, 8)
+            for j in range(nprobe):
+                if run.out_of_time():
+                    break
+                exec_probe(ctx, gen_probe(run.rng('probe', case['i'], j), spec))
+        else:
+            for p in probes:
+                exec_probe(ctx, p)
+        if ctx.maxdiff:
+            run.count('jpeg_keep_maxdiff_ge_%d' % (ctx.maxdiff // 16 * 16))
+        for e in ctx.errors[:1]:
+            if len(run.samples) < 6:
+                run.sample({'error_response': e[0], 'url': e[1], 'body': e[2].decode('latin-1')})
+    finally:
+        shutil.rmtree(d, ignore_errors=True)
+
+
+if __name__ == '__main__':
+    core.main(sys.modules[__name__])
